@@ -109,10 +109,12 @@ def iso4(supplied):
             rv = None
 
         def rp():
-            return {'kind': 'iso4', 'args': {'pin': concretize_str(pin, ev), 'random': ev(r) if supplied else None}}
+            return {'kind': 'iso4', 'args': {'pin': concretize_str(pin, ev), 'random': ev(r) if supplied else None, 'positional': positional}}
         core.set_fallback(rp, 'C13/concretised')
+        # the signature is (pin, random_value=None): the fill may be given by keyword or as the second positional argument
+        positional = choose('positional', [False, True]) if supplied else False
         with guard('Iso4PinBlock', 'C13/iso4-exception', rp):
-            obj = pb.Iso4PinBlock(pin, random_value=rv)
+            obj = pb.Iso4PinBlock(pin, rv) if positional else pb.Iso4PinBlock(pin, random_value=rv)
             blk = obj.to_bytes()
         if supplied:
             require(sec.calls == calls0, 'random fill drawn although one was supplied', key='C13/iso4-random', replay=rp)
